@@ -5,3 +5,4 @@ import SpecVerif.Props.C13
 import SpecVerif.Props.C15
 import SpecVerif.Props.C18
 import SpecVerif.Props.C11
+import SpecVerif.Props.C12
